@@ -123,11 +123,16 @@ class Interp:
         self.observers = {}     # fn id -> callable(interp, st, args, site)   (called before the call is executed)
         self.agg_hooks = []     # callable(interp, st, path, variant, fields, site)
         self.panic_hooks = []
+        self.partition_prefixes = {}   # module prefix -> partition function for every function of that module
         self.unroll_for = {'util::date::convert::days_to_date': 16, 'util::date::convert::weekdays_in_month': 8}
         self.return_hooks = []  # callable(interp, fn, depth, results) at every return of an inlined crate function
         self.cur_entry = None
         self.stack = []
         self._fid = itertools.count(1)
+        self.site_oids = {}
+        self._jc = {}
+        self.opaque_callables = False
+        self._leqmap = {}
         self._cell = itertools.count(1)
         self._oid = itertools.count(1)
         self._cfg = {}
@@ -831,8 +836,14 @@ class Interp:
                     lo = tr[0]
                 if hi > i1[1]:
                     hi = tr[1]
+            jc = self._jc
+            hit = jc.get((a[1], b[1]))
+            if hit is not None and hit in out.iv:
+                # two variables that hold the same value on each side hold the same value after the join
+                return ('i', hit, a[2])
             v = D.fresh_vid(out, lo, hi)
             D.TERM[v] = ('join', a[1], b[1])     # provenance only (never evaluated, never hash-consed)
+            jc[(a[1], b[1])] = v
             return ('i', v, a[2])
         if k == 't':
             if len(a[1]) != len(b[1]):
@@ -877,6 +888,19 @@ class Interp:
             return ('slice', {'len': lv, 'elems': None, 'elem_ty': x.get('elem_ty'), 'ident': x['ident'] if x['ident'] == y['ident'] else next(StrV._ids)})
         if k == 'it':
             return self.join_iter(out, s1, s2, a, b, widen)
+        if k == 'obj' and a[2:] == b[2:]:
+            # the same collection allocated on two paths under two ids: if each id exists on its own path only, the
+            # joined object lives under the first id (no alias of the second one survives a join: aliases are places)
+            o1, o2 = s1.objs.get(a[1]), s2.objs.get(b[1])
+            if o1 is not None and o2 is not None and a[1] not in s2.objs and b[1] not in s1.objs:
+                j = self.join_obj(out, s1, s2, o1, o2, widen)
+                if j is not None:
+                    out.objs[a[1]] = j
+                    l1, l2 = s1.objs.get(('vl', a[1])), s2.objs.get(('vl', b[1]))
+                    if l1 or l2:
+                        out.objs[('vl', a[1])] = tuple(dict.fromkeys(tuple(l1 or ()) + tuple(l2 or ())))
+                    return a
+            return ('top', None)
         if k == 'clo' and a[1] == b[1] and len(a[2]) == len(b[2]):
             return ('clo', a[1], tuple(self.join_val(out, s1, s2, x, y, widen) for x, y in zip(a[2], b[2])))
         return ('top', None)
@@ -900,7 +924,19 @@ class Interp:
             return ('it', 'zip', self.join_val(out, s1, s2, a[2], b[2], widen), self.join_val(out, s1, s2, a[3], b[3], widen))
         if kd == 'chars':
             return ('it', 'chars', a[2], a[3] if a[3] == b[3] else None) if a[2] is b[2] or a[2].ident == b[2].ident else ('it', 'unk', {'k': 'char'}, None)
-        if kd in ('vec', 'strs', 'sub', 'chunks', 'unk'):
+        if kd == 'chunks':
+            if a == b:
+                return a
+            sl = self.join_val(out, s1, s2, ('slice', a[2]), ('slice', b[2]), widen)
+            n = self.join_val(out, s1, s2, a[3], b[3], widen)
+            if sl[0] == 'slice' and n[0] == 'i':
+                return ('it', 'chunks', sl[1], n)
+            return ('it', 'unk', None, None)
+        if kd == 'unk' and a != b and (len(a) > 4 or len(b) > 4):
+            if len(a) > 4 and len(b) > 4 and a[2] == b[2] and a[3] == b[3] and a[4] is not None and b[4] is not None:
+                return ('it', 'unk', a[2], a[3], self.join_val(out, s1, s2, a[4], b[4], widen))
+            return ('it', 'unk', a[2] if a[2] == b[2] else None, a[3] if a[3] == b[3] else None)
+        if kd in ('vec', 'strs', 'sub', 'unk'):
             return a if a == b or kd in ('vec', 'strs', 'unk') else ('it', 'unk', None, None)
         return ('it', 'unk', None, None)
 
@@ -925,6 +961,7 @@ class Interp:
     def join_states(self, s1, s2, widen=False):
         out = St()
         out.iv = {}
+        self._jc = {}
         out.trace = s1.trace
         out.loops = {k: max(s1.loops.get(k, 0), s2.loops.get(k, 0)) for k in set(s1.loops) | set(s2.loops)}
         out.notes = s1.notes
@@ -993,7 +1030,53 @@ class Interp:
                     continue  # unset in one branch: will be re-materialised as top on read
                 fr[l] = self.join_val(out, s1, s2, a, b, widen)
             out.frames[fid] = fr
+        if self._jc and (s1.rel or s2.rel):
+            self._join_rels(out, s1, s2)
         return out
+
+    def _join_rels(self, out, s1, s2):
+        """ordering facts of joined values: j = join(a, b) satisfies j R x whenever a R x held on the first path and
+        b R x on the second (x a value common to both paths, or itself a joined pair)"""
+        def partners(st):
+            ix = {}
+            for (x, y) in st.rel:
+                ix.setdefault(x, set()).add(y)
+                ix.setdefault(y, set()).add(x)
+            return ix
+        p1, p2 = partners(s1), partners(s2)
+
+        def cands(v, ix):
+            c = set(ix.get(v, ()))
+            f = D.AFF.get(v)
+            if f is not None:
+                for at in f.co:
+                    c.add(at)
+                    c |= ix.get(at, set())
+            return c
+        pairs = list(self._jc.items())
+        byfirst = {}
+        for (a, b), j in pairs:
+            byfirst.setdefault(a, []).append((b, j))
+        n = 0
+        for (a, b), j in pairs:
+            if j not in out.iv:
+                continue
+            c1, c2 = cands(a, p1), cands(b, p2)
+            for x in (c1 | c2):
+                if x == a or x == b or n > 200:
+                    continue
+                if x in s1.iv and x in s2.iv and x not in D.CONSTVAL:
+                    r = D._rel_get0(s1, a, x) | D._rel_get0(s2, b, x)
+                    if len(r) < 3:
+                        D.rel_set(out, j, x, r)
+                        n += 1
+            for x in c1:
+                for (xb, jx) in byfirst.get(x, ()):
+                    if jx != j and jx in out.iv and xb in c2 and n <= 200:
+                        r = D._rel_get0(s1, a, x) | D._rel_get0(s2, b, xb)
+                        if len(r) < 3:
+                            D.rel_set(out, j, jx, r)
+                            n += 1
 
     def widen_state(self, old, new):
         """new has been joined with old; push unstable intervals to their global/type range"""
@@ -1007,6 +1090,10 @@ class Interp:
 
     def state_leq(self, a, b):
         """is a subsumed by b (structurally, same vids)?  conservative"""
+        for f in b.lin:
+            if f not in a.lin:
+                return False
+        self._leqmap = m = {}
         for fid, fa in a.frames.items():
             fb = b.frames.get(fid)
             if fb is None:
@@ -1040,6 +1127,16 @@ class Interp:
             else:
                 if not self.val_leq(a, b, ('i', oa[1], 'usize'), ('i', ob[1], 'usize')):
                     return False
+        for (x, y), r in b.rel.items():
+            # an ordering fact the accumulator relies on must hold in the arriving state, for the values that stand
+            # in the same places there (values that are absent from the arriving state cannot be referred to)
+            ax, ay = m.get(x, x), m.get(y, y)
+            if (x in m or y in m or True) and ax in a.iv and ay in a.iv:
+                ra = D._rel_get0(a, ax, ay)
+                if not ra <= r:
+                    if (x in m or y in m) and D.rel_get_deep(a, ax, ay) <= r:
+                        continue
+                    return False
         return True
 
     def val_leq(self, sa, sb, a, b):
@@ -1050,6 +1147,8 @@ class Interp:
         k = a[0]
         if k == 'i':
             ia, ib = D.get_iv(sa, a[1]), D.get_iv(sb, b[1])
+            if self._leqmap.setdefault(b[1], a[1]) != a[1]:
+                return False      # one value of the accumulator stands for two different values here
             return ib[0] <= ia[0] and ia[1] <= ib[1]
         if k == 't':
             return len(a[1]) == len(b[1]) and all(self.val_leq(sa, sb, x, y) for x, y in zip(a[1], b[1]))
@@ -1085,6 +1184,11 @@ class Interp:
         if k == 'it':
             if a == b:
                 return True
+            if a[1] == 'unk' and b[1] == 'unk' and len(a) > 4 and len(b) > 4 and a[2:4] == b[2:4] and a[4] is not None and b[4] is not None:
+                return self.val_leq(sa, sb, a[4], b[4])
+            if a[1] == b[1] and a[1] in ('zip', 'enum', 'rev') and len(a) == len(b):
+                return all((x == y) if not (isinstance(x, tuple) and x and isinstance(x[0], str)) else self.val_leq(sa, sb, x, y)
+                           for x, y in zip(a[2:], b[2:]))
             try:
                 return self.join_iter(sb, sa, sb, a, b) == b
             except Exception:
@@ -1148,6 +1252,8 @@ class Interp:
             st = st0.clone()
             body = self.bodies[fn]
             return [(st, self.top(st, body['locals'][0], 'rec'))]
+        if any(f == fn for f, _ in self.stack):
+            self.note('re-entry: ' + fn)
         body = self.bodies[fn]
         cfg = self.cfg(fn)
         fid = next(self._fid)
@@ -1203,6 +1309,11 @@ class Interp:
             self.gc_state(s, extra=(v,))
             out.append((s, v))
         part = self.return_partition.get(fn)
+        if part is None and len(out) > 1:
+            for pref, pf in self.partition_prefixes.items():
+                if fn.startswith(pref) or ('<' + pref) in fn[:len(pref) + 1]:
+                    part = pf
+                    break
         if part is not None and len(out) > 1:
             groups = {}
             for s, v in out:
@@ -1437,6 +1548,10 @@ class Interp:
             body = self.bodies.get(fn) if fn else None
             flags = [l for l, _n in (body.get('names', []) if body else []) if body['locals'][l].get('k') == 'bool'][:3]
             groups = {}
+            pf = None
+            for pref, f in self.partition_prefixes.items():
+                if fn and fn.startswith(pref):
+                    pf = f
             for s in over:
                 key = []
                 fr = s.frames.get(fid, {})
@@ -1444,7 +1559,18 @@ class Interp:
                     v = fr.get(l)
                     iv = D.get_iv(s, v[1]) if v is not None and v[0] == 'i' else (0, 1)
                     key.append(iv[0] if iv[0] == iv[1] else None)
+                if pf is not None:
+                    # user structs / enums held in locals keep their variants and constant fields apart
+                    # (e.g. header.ver and data_block.time_size of the TZif reader stay correlated)
+                    for l, v in sorted((l, v) for l, v in fr.items() if isinstance(l, int) and l >= 0):
+                        if v is not None and v[0] in ('s', 'e') and not v[1].startswith(('std::', 'core::', 'alloc::')):
+                            key.append((l, pf(self, s, v)))
                 groups.setdefault(tuple(key), []).append(s)
+            if pf is not None and len(groups) > 12:
+                merged = {}
+                for key, members in groups.items():
+                    merged.setdefault(key[:len(flags)], []).extend(members)
+                groups = merged
             for key, members in groups.items():
                 hk = (bb, key)
                 acc = head_acc.get(hk)
@@ -1879,6 +2005,12 @@ class Interp:
                 return self.call_body(st, callee[1], spread, site)
             if callee[0] == 'fn':
                 return self.do_call(st, callee[1], callee[1], spread, dty, site)
+            if self.opaque_callables and callee[0] == 'top' and not self.stack[1:]:
+                # a callable *parameter of the analysed entry*: its own panics belong to whoever passes it (the callers'
+                # closures are analysed at their call sites); its result is unknown
+                self.note('opaque callable parameter called')
+                s2 = st.clone()
+                return [(s2, self.top(s2, dty, 'ret') if dty is not None else ('top', None))]
         if cid in self.bodies and (f is None or f.get('local', True)):
             b = self.bodies[cid]
             if b['kind'] == 'Closure':
